@@ -17,8 +17,14 @@ ToksOK(e) == LET ts == e.in.toks  o == e.obs IN
          /\ o.enc_ok /\ ~o.err /\ o.bytes = ToksBytes(ts)
          /\ NormSeq(o.toks) = NormSeq(ts)                               \* value-equal tokens come back
 EventOK(e) == IF e.name = "bytes" THEN BytesOK(e) ELSE ToksOK(e)
+\* which half of ToksOK fails: what Token's Encode impl wrote ("tokenc": C03 as well), or what came back from those bytes ("tokrt": C01 as well)
+Why(e) == IF e.name = "bytes" THEN "bytes"
+          ELSE LET ts == e.in.toks  o == e.obs IN
+               LET encok == o.p = "run" /\ o.enc_ok /\ o.bytes = ToksBytes(ts)
+                   rtok  == o.p = "run" /\ o.enc_ok /\ ~o.err /\ NormSeq(o.toks) = NormSeq(ts) IN
+               IF encok THEN "tokrt" ELSE IF rtok THEN "tokenc" ELSE "tokboth"
 Init == l = 1
 Next == /\ l <= Len(Rec) /\ l' = l + 1
-        /\ IF EventOK(Rec[l]) THEN TRUE ELSE PrintT(<<"MISMATCH", l, ToJson(Rec[l])>>)
+        /\ IF EventOK(Rec[l]) THEN TRUE ELSE PrintT(<<"MISMATCH", l, ToJson([why |-> Why(Rec[l]), ev |-> Rec[l]])>>)
 AllConsumed == TLCGet("stats").diameter - 1 = Len(Rec) \/ PrintT(<<"NOTCONSUMED", TLCGet("stats").diameter - 1, Len(Rec)>>)
 =============================================================================
